@@ -32,7 +32,7 @@ META = {
              'three line-ending styles, duplicates: the real read_input_file dictionary (keys in order, Name, sValue, Comment, raw_entry) '
              'must equal the model\'s, compared inside Coq; (b) metamorphic variants (perm, ws, comment, dup, eol, all) of distinct-name '
              'parameter lists through the real tokenizer; (c) client override files; (d) whole runs of the six variant classes of example '
-             'and synthetic inputs, reports compared after masking the metadata lines. Non-trivial = file with >= 2 parameter lines and '
+             'and synthetic inputs (incl. add-ons combined with S-DAC-GT, add-on block moved first / last), reports compared after masking the metadata lines. Non-trivial = file with >= 2 parameter lines and '
              'at least one decoration; distinct = distinct feature signature / (base, class) pair'),
     'trusted_base': ['Coq 8.16.1 kernel + vm_compute (no native_compute)',
                      'all C12 theorems: Closed under the global context (no axioms)',
@@ -231,6 +231,13 @@ def base_inputs(ctx):
     ex = ex[:ctx.n(10, 40)]
     syn = [(f'synthetic{i}', runner.params_to_text(configs.synthetic(ctx.rng, addons=(i % 2 == 0))))
            for i in range(ctx.n(24, 150))]
+    # add-ons (auto-detected from their names, no explicit switch) together with S-DAC-GT (explicit switch + parameters):
+    # two families of prefixed keys that the simulator detects by scanning the dictionary
+    for i in range(ctx.n(3, 20)):
+        p = configs.synthetic(ctx.rng, enduse=1, plant=ctx.rng.choice([1, 2]), addons=True)
+        p += [('Do S-DAC-GT Calculations', 'True'), ('S-DAC-GT CAPEX', configs.fmt(configs.dec(ctx.rng, 1000, 1800, 0))),
+              ('S-DAC-GT OPEX', configs.fmt(configs.dec(ctx.rng, 40, 70, 0)))]
+        syn.append((f'addons+sdacgt{i}', runner.params_to_text(p)))
     out = []
     for n, t in ex + syn:
         lines = [l for l in canonical(t) if l[1] != 'Print Output to Console'] + [('p', 'Print Output to Console', '0', '')]
@@ -244,7 +251,8 @@ def part_runs(ctx, bases=None, classes=layout.CLASSES):
     for name, lines in bases:
         texts.append(layout.render(lines))
         meta.append((name, 'base'))
-        for cls in classes:
+        has_block = any(l[0] == 'p' and layout.is_block(l[1]) for l in lines)
+        for cls in list(classes) + (layout.BLOCK_CLASSES if has_block else []):
             texts.append(layout.variant(ctx.rng, lines, cls))
             meta.append((name, cls))
     res = runner.run_many(ctx, texts)
@@ -264,7 +272,7 @@ def part_runs(ctx, bases=None, classes=layout.CLASSES):
                             inp={'part': 'runs', 'cls': cls, 'name': name, 'base_text': reftext, 'variant_text': text},
                             expected='identical report (metadata lines masked)', observed={'first_differing_lines': diff})
     ctx.count('whole-runs', bases_with_report={'yes': ok, 'no': len(bases) - ok})
-    ctx.sample('whole-runs', {'base': bases[0][0], 'variant_all': texts[len(classes)]})
+    ctx.sample('whole-runs', {'base': bases[0][0], 'variant_perm': texts[1]})
     return bad
 
 
